@@ -207,4 +207,54 @@ end
 def Rel (stack : List VT) (stk : List Val) (σ : MSt) : Prop :=
   stk.length = stack.length ∧ ∀ k, ∀ h : k < stack.length, ∀ h' : k < stk.length, σ.get ⟨stack[k], k⟩ = stk[k]
 
+/-! ## whole functions -/
+
+def zeroVal : VT → Val
+  | .i32 => .i32 0 | .i64 => .i64 0 | .f32 => .f32 0 | .f64 => .f64 0
+
+/-- parameters hold the arguments, declared locals start at zero -/
+def initLocals (locals : List VT) (args : List Val) : List Val := args ++ locals.map zeroVal
+
+inductive FRes
+  | value (v : Option Val)          -- returned (with the result value, if the function has one)
+  | trap (t : Trap)
+  | oof
+  | stuck
+  deriving Inhabited
+
+/-- how a function invocation ends, given how its body ended: falling off the end, `br` to the
+    function label and `return` all return the top of the stack -/
+def srcFinish (result : Option VT) : ERes → FRes
+  | .normal stk _ | .branch 0 stk _ | .ret stk _ =>
+    (match result with
+     | none => .value none
+     | some _ => (match stk.getLast? with | some v => .value (some v) | none => .stuck))
+  | .branch (_ + 1) _ _ => .stuck
+  | .trap t => .trap t
+  | .oof => .oof
+  | .stuck => .stuck
+
+/-- invocation of a WebAssembly function: parameters hold the arguments, declared locals start at
+    zero, the body runs as a block labelled with the result type -/
+def runFuncSrc (ns : NumSem) (fuel : Nat) (locals : List VT) (result : Option VT) (body : List EInstr) (args : List Val) : FRes :=
+  srcFinish result (erunSeq ns fuel body [] (initLocals locals args))
+
+def initMSt (locals : List VT) (args : List Val) : MSt := { slots := fun _ => 0, locals := initLocals locals args }
+
+/-- after the body: `L0:;` and `return s<t>0;` (emitted only when some slot variable was declared:
+    without it, leaving a non-void function is undefined, `stuck`) -/
+def tgtFinish (cf : Model.CFunc) : MRes → FRes
+  | .normal σ | .jump 0 σ =>
+    (match cf.result with
+     | none => .value none
+     | some rt => if cf.returnsSlot then .value (some (σ.get ⟨rt, 0⟩)) else .stuck)
+  | .jump (_ + 1) _ => .stuck
+  | .trap t => .trap t
+  | .oof => .oof
+  | .stuck => .stuck
+
+/-- the emitted C function: parameters and zero-initialised locals, the body, the epilogue -/
+def runFuncTgt (ns : NumSem) (fuel : Nat) (cf : Model.CFunc) (args : List Val) : FRes :=
+  tgtFinish cf (execSeq ns fuel cf.body (initMSt cf.localTypes args))
+
 end W2c2Verif.Sim
